@@ -300,11 +300,29 @@ def rand_doc(rng, idx, timeseries, flaw=None):
     if rng.random() < 0.35:
         doc.append(("note", rng.choice(BAD_DATES)))
     if timeseries:
-        n = rng.choice([0, 1, 3, 6])
-        ts = [date_at(t0 + 300 * k + rng.choice([0, 0, 1, 4])) for k in range(n)]
-        doc.append(("chargingCurrent", dict(current=[round(rng.uniform(0, 32), 2) for _ in ts], timestamps=ts)))
-        ts2 = list(ts) if rng.random() < 0.5 else [date_at(t0 + 600 * k) for k in range(rng.choice([0, 2]))]
-        doc.append(("pilotSignal", dict(pilot=[32.0] * len(ts2), timestamps=ts2)))
+        # two or three series per session; a later series relates to the first one in every way that matters for a
+        # "parse once, reuse" shortcut: identical list, same length and end points but other instants in between,
+        # other length, other first / last sample
+        n = rng.choice([0, 1, 3, 4, 6, 6])
+        inst = [t0 + 300 * k + rng.choice([0, 0, 1, 4]) for k in range(n)]
+        doc.append(("chargingCurrent", dict(current=[round(rng.uniform(0, 32), 2) for _ in inst],
+                                            timestamps=[date_at(t) for t in inst])))
+        for name in ["pilotSignal"] + (["voltage"] if rng.random() < 0.4 else []):
+            mode = rng.choice(["same", "interior", "interior", "length", "ends", "empty"])
+            other = list(inst)
+            if mode == "interior" and n >= 3:
+                for k in range(1, n - 1):
+                    other[k] = inst[k] + rng.choice([7, 60, 149, -100, 3600])
+                if rng.random() < 0.3:
+                    other[1:n - 1] = sorted(other[1:n - 1], reverse=True)
+            elif mode == "length":
+                other = inst[:-1] if n and rng.random() < 0.5 else inst + [t0 + 300 * n + 30]
+            elif mode == "ends" and n:
+                other[rng.choice([0, -1])] += rng.choice([1, 15, -20])
+            elif mode == "empty":
+                other = []
+            doc.append((name, {"timestamps": [date_at(t) for t in other],
+                               ("pilot" if name == "pilotSignal" else "values"): [32.0] * len(other)}))
         if rng.random() < 0.3:
             doc.append(("extra", dict(values=[1, 2], unit="A")))      # a dict without timestamps
     if flaw == "no-timezone":
@@ -412,7 +430,47 @@ BAD_SITES = ["Caltech", "", "jpl ", "office01", "caltech/ts", "JPL"]
 BASES = [None, "https://ev.caltech.edu/api/v1/", "http://localhost:5000/api/v1/", "http://h/", "http://noslash"]
 CONDS = [None, None, "", 'connectionTime >= "Mon, 01 Oct 2018 00:00:00 GMT"', "kWhDelivered > 5 and userID != null",
          'connectionTime<="Tue, 01 Jan 2019 08:00:00 GMT" and kWhDelivered>=1.5']
-PROJECTS = [None, None, None, '{"sessionID": 1, "kWhDelivered": 1}']
+PROJECTS = [None, None, None, '{"sessionID": 1, "kWhDelivered": 1}',
+            '{"connectionTime":1,"kWhDelivered":1,"timezone":1}', '{"sessionID":1,"timezone":1,"disconnectTime":1}',
+            '{"_id":0,"connectionTime":1,"doneChargingTime":1,"timezone":1,"chargingCurrent":1,"pilotSignal":1}',
+            '{"_id":0,"sessionID":1,"timezone":1}', '{"kWhDelivered":1,"stationID":1}']
+
+
+def apply_projection(project, payloads):
+    """what the API serves for a `project` argument: only the listed fields (and _id unless switched off)"""
+    import json
+    try:
+        spec = json.loads(project)
+    except Exception:  # noqa
+        return
+    keep = {k for k, v in spec.items() if v}
+    if spec.get("_id", 1):
+        keep.add("_id")
+    for p in payloads:
+        p["_items"] = [{k: v for k, v in d.items() if k in keep} for d in p["_items"]]
+
+
+def muddle_ids(rng, payloads):
+    """session identifiers are data, not keys: duplicates across different documents, None, missing"""
+    docs = [d for p in payloads for d in p["_items"]]
+    if len(docs) < 2:
+        return
+    r = rng.random()
+    if r < 0.35:
+        v = docs[0].get("sessionID")
+        for d in rng.sample(docs[1:], max(1, len(docs) // 2)):
+            d["sessionID"] = v
+    elif r < 0.55:
+        for d in docs:
+            d["sessionID"] = None
+    elif r < 0.75:
+        for d in rng.sample(docs, max(1, len(docs) // 2)):
+            d.pop("sessionID", None)
+    else:
+        v = docs[-1].get("_id")
+        for d in docs[:-1]:
+            if rng.random() < 0.5:
+                d["_id"] = v
 SORTS = [None, None, "connectionTime", "-connectionTime", "kWhDelivered"]
 
 
@@ -469,6 +527,8 @@ def rand_spec(rng, by_time, base="?", token=None, site=None, multipage=False):
     payloads, metas = rand_pages(rng, timeseries)
     while multipage and (len(payloads) < 2 or sum(len(p["_items"]) for p in payloads) < 2):
         payloads, metas = rand_pages(rng, timeseries)
+    if rng.random() < 0.25:
+        muddle_ids(rng, payloads)
     if base == "?":
         base = rng.choice(BASES)
     if token is None:
@@ -497,6 +557,8 @@ def rand_spec(rng, by_time, base="?", token=None, site=None, multipage=False):
             kwargs["sort"] = sort
         if timeseries or rng.random() < 0.3:
             kwargs["timeseries"] = ts_arg
+        if project is not None:
+            apply_projection(project, payloads)
         spec.update(cond=cond, project=project, sort=sort, call=lambda c: c.get_sessions(site, **kwargs))
     else:
         def bound():
@@ -1032,8 +1094,10 @@ def monitor(case):
             if bad_ts or overflow:
                 break
             convertible += 1
-        got_ids = [g.get("_id") for g in impl["yielded"]]
-        want_ids = [d["_id"] for d, _ in flat]
+        def ident(d_):
+            return [d_.get(k_) for k_ in ("_id", "sessionID", "kWhDelivered", "stationID", "spaceID", "userID")]
+        got_ids = [ident(g) for g in impl["yielded"]]
+        want_ids = [ident(d) for d, _ in flat]
         if convertible == len(flat):
             if stop is None and impl["outcome"] is not None:
                 return "generator raised %s on a well-formed paging" % impl["outcome"]
